@@ -22,7 +22,9 @@ import re
 
 import numpy as np
 
-from vlib import gen
+import copy
+
+from vlib import dsl, gen
 from vlib.fitcase import Member
 from vlib.models import DENSITIES, FAMILIES, Model
 from vlib.monitor import OpTimeout, Tol, fmt_exc, time_limit
@@ -101,11 +103,13 @@ ANCHORS = [
 BAND = Tol.custom("BAND", 1e-3, 1e-12)
 PROP = Tol.custom("PROPORTIONAL", 1e-9, 0.0)
 
+# "shared": several fits on one plot that were all constructed with the SAME model function object (kafe2 stores it without
+# copying, so the fits share the parameter formatters the legend is written from); "shared-separate": the same, one figure per fit
 OPTIONS = {
-    "xy": ["plain", "ratio", "residual", "pull", "asym", "separate", "multi", "logx", "logy"],
-    "indexed": ["plain", "ratio", "residual", "pull", "asym", "separate", "multi", "logy"],
-    "hist": ["plain", "ratio", "residual", "pull", "asym", "separate", "multi", "logy"],
-    "unbinned": ["plain", "asym", "separate", "multi", "logx", "logy"],
+    "xy": ["plain", "ratio", "residual", "pull", "asym", "separate", "multi", "logx", "logy", "shared", "shared-separate"],
+    "indexed": ["plain", "ratio", "residual", "pull", "asym", "separate", "multi", "logy", "shared"],
+    "hist": ["plain", "ratio", "residual", "pull", "asym", "separate", "multi", "logy", "shared", "shared-separate"],
+    "unbinned": ["plain", "asym", "separate", "multi", "logx", "logy", "shared"],
 }
 STRATA = [(t, o) for t in ("xy", "indexed", "hist", "unbinned") for o in OPTIONS[t]]
 # (fit type, uncertainty configuration, cost)
@@ -174,10 +178,13 @@ def floors(tier):
             "legend.gof-per-ndf": 30 * k,
             "legend.probability": 12 * k,
             "legend.cost": 10 * k,
+            "legend.shared-model-function.value": 12 * k,
         },
         "ops": ["Plot.plot", "do_fit"],
         "reach": ["%s:%s" % a for a in ANCHORS],
-        "strata": ["%s|%s" % s for s in STRATA] + ["ucfg|%s|%s|%s" % u for u in UCFG] + ["fits|1", "fits|2", "fits|3", "fixed-parameter", "negative-model", "replot-after-refit"],
+        "strata": ["%s|%s" % s for s in STRATA] + ["ucfg|%s|%s|%s" % u for u in UCFG] + ["fits|1", "fits|2", "fits|3", "fixed-parameter", "negative-model", "replot-after-refit"]
+        + ["shared-model-function|%s" % t for t in ("xy", "indexed", "hist", "unbinned")]
+        + ["shared-model-function|one-figure", "shared-model-function|separate-figures", "shared-model-function|legends-distinguishable"],
         "distinct_nontrivial": 45 * k,
     }
 
@@ -202,18 +209,31 @@ def _first_source(rng, ftype, n, ucfg, name, yscale):
     return gen.gen_source(rng, n, ftype, name, yscale=yscale, force=f)
 
 
-def gen_member(rng, tier, ftype, ucfg, cost, j, positive_x=False, allow_negate=True):
+def gen_member(rng, tier, ftype, ucfg, cost, j, positive_x=False, allow_negate=True, like=None):
+    """like: an already generated member of the same fit type whose model (family, name, default values) this one shares:
+    own data, own uncertainty sources, same model specification (the fits are then built on one model function object)"""
     prefix = "m%d" % j
+    lm = like["spec"]["model"] if like is not None else None
     fid = COST_ALIASES.get(cost)
     counts = fid in POISSON
     big = tier != "quick" and rng.random() < 0.3
     neg = False
     if ftype in ("xy", "indexed"):
-        fam = str(rng.choice(XY_FAMILIES_COUNTS if counts else XY_FAMILIES))
+        fam = lm["family"] if lm else str(rng.choice(XY_FAMILIES_COUNTS if counts else XY_FAMILIES))
         npar = len(FAMILIES[fam][0])
         n = int(rng.integers(npar + 2, 30 if big else 10))
         mk = gen.gen_xy_spec if ftype == "xy" else gen.gen_indexed_spec
-        spec = mk(rng, family=fam, cost=cost, counts=counts, n=n)
+        if lm and ftype == "indexed":
+            # the index -> x map is part of an indexed model function: same support points, new data around the same family
+            spec = copy.deepcopy(like["spec"])
+            m0 = Model.from_spec(lm)
+            n = len(spec["x"])
+            y = m0.f(np.array(spec["x"], dtype=float), gen.perturbed_params(rng, m0, 0.1))
+            y = rng.poisson(np.clip(np.abs(y) * 4.0 + 1.0, 0.5, 200.0)).astype(float) if counts else y + rng.normal(size=n) * 0.1 * (np.abs(y).mean() + 0.1)
+            spec["data"] = [float(np.round(v, 5)) for v in y]
+            spec["cost"] = cost
+        else:
+            spec = mk(rng, family=fam, cost=cost, counts=counts, n=n)
         if allow_negate and not counts and FAMILIES[fam][4] and rng.random() < 0.25:
             # a linear family with all parameters negated is the negated function: model values below zero
             spec["model"]["defaults"] = [-d for d in spec["model"]["defaults"]]
@@ -223,16 +243,20 @@ def gen_member(rng, tier, ftype, ucfg, cost, j, positive_x=False, allow_negate=T
         yv = spec.get("y") or spec["data"]
     elif ftype == "hist":
         dens = str(rng.choice(["normal", "expdens", "mixture"], p=[0.45, 0.35, 0.2]))
+        dens = lm["family"] if lm else dens
         npar = len(DENSITIES[dens][0])
         spec = gen.gen_hist_spec(rng, density=dens, cost=cost, n_bins=int(rng.integers(npar + 2, 25 if big else 10)), n_entries=int(rng.integers(60, 2000 if big else 300)))
         n = len(spec["edges"]) - 1
         yv = [len(spec["entries"]) / float(n)]
     else:
         dens = str(rng.choice(["normal", "expdens", "mixture"], p=[0.4, 0.4, 0.2])) if not positive_x else "expdens"
+        dens = lm["family"] if lm else dens
         spec = gen.gen_unbinned_spec(rng, density=dens, n=int(rng.integers(15, 200 if big else 60)))
         n = len(spec["data"])
         yv = [1.0]
     spec["model"]["name"] = "f%d_%s" % (j, spec["model"]["family"])
+    if lm:
+        spec["model"] = copy.deepcopy(lm)
     ops = []
     if ftype != "unbinned" and ucfg != "none":
         yscale = float(np.mean(np.abs(yv)) + 0.5)
@@ -252,9 +276,9 @@ def gen_member(rng, tier, ftype, ucfg, cost, j, positive_x=False, allow_negate=T
     return {"spec": spec, "setup": ops, "ucfg": ucfg, "fixed": fixed, "negated": neg}
 
 
-def _pick_ucfg(rng, ftype, option):
-    """a random (uncertainty configuration, cost) of the fit type that the option can be asked for"""
-    cand = [u for u in UCFG if u[0] == ftype]
+def _pick_ucfg(rng, ftype, option, cost=None):
+    """a random (uncertainty configuration, cost) of the fit type that the option can be asked for (cost: only with this cost)"""
+    cand = [u for u in UCFG if u[0] == ftype and (cost is None or u[2] == cost)]
     if option == "pull":
         cand = [u for u in cand if not (u[1] == "none" and COST_ALIASES.get(u[2]) not in POISSON)]
     u = cand[int(rng.integers(0, len(cand)))]
@@ -276,6 +300,7 @@ def gen_case(rng, tier, idx, shard, nshards):
         option = str(rng.choice(OPTIONS[ftype]))
     o = {"panel": None, "asym": False, "separate": False, "x_scale": "linear", "y_scale": "linear"}
     nfits = 1
+    shared = False
     if option in ("ratio", "residual", "pull"):
         o["panel"] = option
     elif option == "asym":
@@ -285,6 +310,10 @@ def gen_case(rng, tier, idx, shard, nshards):
         nfits = int(rng.integers(2, 4))
     elif option == "multi":
         nfits = int(rng.integers(2, 4))
+    elif option in ("shared", "shared-separate"):
+        nfits = int(rng.integers(2, 4))
+        shared = True
+        o["separate"] = option == "shared-separate"
     elif option == "logx":
         o["x_scale"] = "log"
     elif option == "logy":
@@ -301,18 +330,23 @@ def gen_case(rng, tier, idx, shard, nshards):
             o["separate"] = True
         if rng.random() < 0.15:
             o["y_scale"] = "log"
+        if nfits > 1 and rng.random() < 0.3:
+            shared = True
     members = []
     for j in range(nfits):
         t = ftype
-        if j > 0 and o["x_scale"] == "linear" and rng.random() < 0.3:
+        if j > 0 and not shared and o["x_scale"] == "linear" and rng.random() < 0.3:
             t = str(rng.choice(["xy", "indexed", "hist"] if o["panel"] else ["xy", "indexed", "hist", "unbinned"]))
         if j == 0 and forced_u is not None:
             ucfg, cost = forced_u
         else:
-            ucfg, cost = _pick_ucfg(rng, t, o["panel"])
-        members.append(gen_member(rng, tier, t, ucfg, cost, j, positive_x=(o["x_scale"] == "log")))
+            ucfg, cost = _pick_ucfg(rng, t, o["panel"], cost=members[0]["spec"]["cost"] if (shared and j > 0) else None)
+        members.append(gen_member(rng, tier, t, ucfg, cost, j, positive_x=(o["x_scale"] == "log"), allow_negate=not shared, like=members[0] if (shared and j > 0) else None))
     # every fourth case draws the same Plot object a second time after the fits have been changed and fitted again
-    return {"property": "C18", "stratum": [ftype, option], "options": o, "members": members, "replot": bool(gi % 4 == 2)}
+    case = {"property": "C18", "stratum": [ftype, option], "options": o, "members": members, "replot": bool(gi % 4 == 2)}
+    if shared:
+        case["shared_model_function"] = True
+    return case
 
 
 # ------------------------------------------------------------------ reference quantities
@@ -575,8 +609,9 @@ def parse_info(text, npar):
     return out, None
 
 
-def check_legend_text(ctx, text, mb, h, want_asym, det):
-    """Compare one fit-info text with the held results of its fit. Returns True when everything displayed was compared and agreed."""
+def check_legend_text(ctx, text, mb, h, want_asym, det, shared_with=None):
+    """Compare one fit-info text with the held results of its fit. Returns True when everything displayed was compared and agreed.
+    shared_with: the other members on the plot that were built on the same model function object (None: own model function)."""
     names = list(mb.ref.model.pnames)
     info, why = parse_info(text, len(names))
     det = dict(det, text=text)
@@ -587,13 +622,23 @@ def check_legend_text(ctx, text, mb, h, want_asym, det):
     for i, (name_tex, kind, nums) in enumerate(info["params"]):
         d = lambda: dict(det, parameter=names[i], line_form=kind, displayed=[x.j() for x in nums], held_value=h["values"][i], held_error=None if h["errors"] is None else h["errors"][i], held_asym=None if h["asym"] is None else h["asym"][i])  # noqa: E731
         V = nums[0]
+        if shared_with is not None and not ctx.check("legend.shared-model-function.value", within_half(V.d, V.q, h["values"][i]), d):
+            return False
         if not ctx.check("legend.value", within_half(V.d, V.q, h["values"][i]), d):
             return False
         if names[i] in fixed:
             if not ctx.check("legend.fixed-marker", kind == "fixed", d):
                 return False
             continue
-        if not ctx.check("legend.fixed-marker", kind != "fixed", d):
+
+        def fixed_key():
+            # the parameter is free in this fit, displayed as fixed (with this fit's value), and fixed in another fit on the
+            # plot that was built on the same model function object
+            if kind == "fixed" and shared_with and any(names[i] in o.ref.fixed for o in shared_with):
+                return "C18/fixed-marker-of-shared-model-function-object-shown-for-every-fit"
+            return None
+
+        if not ctx.check("legend.fixed-marker", kind != "fixed", lambda: dict(d(), fixed_in_fits_sharing_the_model_function=[names[i] in o.ref.fixed for o in (shared_with or [])]), key=fixed_key):
             return False
         if kind == "plain":
             if not ctx.check("legend.error", not have_errors, lambda: dict(d(), why="the fit holds an uncertainty that is not displayed")):
@@ -681,6 +726,47 @@ def classify_logx(case, members):
     if min(lows) <= 0:
         return "C18/log-x-with-several-fits-keeps-linear-padded-range"
     return None
+
+
+# ------------------------------------------------------------------ fits built on one model function object
+def model_function_object(spec):
+    """The kafe2 model function object of the fit type (what a user writes as mf = ModelFunctionBase(f) / HistModelFunction(f) / ...)."""
+    from kafe2.fit import HistFit, IndexedFit, UnbinnedFit, XYFit
+
+    t = spec["type"]
+    m = Model.from_spec(spec["model"])
+    f = m.callable(indexed_x=spec["x"]) if t == "indexed" else m.callable()
+    return {"xy": XYFit, "indexed": IndexedFit, "hist": HistFit, "unbinned": UnbinnedFit}[t].MODEL_FUNCTION_TYPE(f)
+
+
+class SharedMember(Member):
+    """A Member whose kafe2 fit is constructed with an existing model function object (stored by kafe2 without copying)."""
+
+    def __init__(self, spec, setup, model_function, minimizer=None):
+        from kafe2.fit import HistFit, IndexedFit, UnbinnedFit, XYFit
+
+        self.spec = spec = dict(spec)
+        if minimizer is not None:
+            spec["minimizer"] = minimizer
+        t = spec["type"]
+        kw = {"minimizer": spec["minimizer"]} if spec.get("minimizer") else {}
+        if t != "unbinned" and spec.get("dea"):
+            kw["dynamic_error_algorithm"] = spec["dea"]
+        if t == "xy":
+            self.fit = XYFit([np.array(spec["x"], dtype=float), np.array(spec["y"], dtype=float)], model_function=model_function, cost_function=spec["cost"], **kw)
+        elif t == "indexed":
+            self.fit = IndexedFit(np.array(spec["data"], dtype=float), model_function=model_function, cost_function=spec["cost"], **kw)
+        elif t == "hist":
+            m = Model.from_spec(spec["model"])
+            be = spec.get("bin_evaluation", "cdf")
+            if be == "cdf":
+                be = m.callable(cdf=True, name=m.name + "_antiderivative")
+            self.fit = HistFit(dsl.build_container(spec), model_function=model_function, cost_function=spec["cost"], bin_evaluation=be, density=spec.get("density", True), **kw)
+        else:
+            self.fit = UnbinnedFit(np.array(spec["data"], dtype=float), model_function=model_function, **kw)
+        self.ref = dsl.new_ref(spec)
+        for op in setup:
+            self.apply(op)
 
 
 # ------------------------------------------------------------------ execution
@@ -829,8 +915,15 @@ def _run_case(ctx, case):
     opt = case["options"]
     want_asym = bool(opt["asym"])
     members = []
+    shared = bool(case.get("shared_model_function"))
+    mfo = None
     for m in case["members"]:
-        mb = Member(m["spec"], m["setup"], minimizer="iminuit")
+        if shared:
+            if mfo is None:
+                mfo = model_function_object(m["spec"])
+            mb = SharedMember(m["spec"], m["setup"], mfo, minimizer="iminuit")
+        else:
+            mb = Member(m["spec"], m["setup"], minimizer="iminuit")
         if not mb.admissible():
             ctx.discard("configuration-not-admissible")
             return False
@@ -895,6 +988,11 @@ def _run_case(ctx, case):
             ctx.stratum("fixed-parameter")
     if any(ex.type != "unbinned" and np.any(ex.m < 0) for ex in exps):
         ctx.stratum("negative-model")
+    if shared:
+        ctx.op("fits-on-one-model-function-object")
+        ctx.stratum("shared-model-function", members[0].spec["type"])
+        ctx.stratum("shared-model-function", "separate-figures" if opt["separate"] else "one-figure")
+        ctx.add_to_set("shared-model-function", "%s|%d|%s|%s|%s" % (members[0].spec["type"], len(members), members[0].spec["model"]["family"], bool(opt["separate"]), opt["panel"]))
 
     # ---- the plot
     fits = [mb.fit for mb in members]
@@ -988,6 +1086,7 @@ def verify_plot(ctx, case, plot, res, members, before, opt, want_asym, second=Fa
     # every plot() call opens its own figures and appends them: this call's are the last nfig
     figs, axs = plot.figures[-nfig:], plot.axes[-nfig:]
     all_ok = True
+    shown = []
     for fi in range(nfig):
         axes = axs[fi]
         idx = [fi] if opt["separate"] else list(range(len(members)))
@@ -1008,12 +1107,20 @@ def verify_plot(ctx, case, plot, res, members, before, opt, want_asym, second=Fa
         infos = [s for s in texts if "hookrightarrow" in s]
         if not ctx.check("legend.count", len(legs) == 1 and len(infos) == len(idx), lambda: dict(det0, figure=fi, n_legends=len(legs), n_fit_infos=len(infos), n_fits=len(idx), texts=texts)):
             return False
+        shared = bool(case.get("shared_model_function"))
         for text, j in zip(infos, idx):
             n0 = _nfail(ctx)
-            ok = check_legend_text(ctx, text, members[j], after[j], want_asym, dict(det0, figure=fi, fit_index=j, n_fits_on_plot=len(idx)))
+            sw = [m for k, m in enumerate(members) if k != j] if shared else None
+            ok = check_legend_text(ctx, text, members[j], after[j], want_asym, dict(det0, figure=fi, fit_index=j, n_fits_on_plot=len(idx), shared_model_function=shared), shared_with=sw)
             if _nfail(ctx) != n0:
                 return False
             all_ok = all_ok and ok
+        if shared:
+            shown.extend("\n".join(ln.strip() for ln in s.split("\n")[1 : 1 + len(members[j].ref.model.pnames)]) for s, j in zip(infos, idx))
+    if len(set(shown)) > 1:
+        # the fits built on one model function object have results that display differently: a legend block written from
+        # another fit's numbers cannot go unnoticed
+        ctx.stratum("shared-model-function", "legends-distinguishable")
     return all_ok
 
 
